@@ -18,6 +18,8 @@ def _case(c: rs.SysCase, tags=(), claimed=True) -> Case:
 def impl(case: Case) -> str:
     c: rs.SysCase = pickle.loads(bytes.fromhex(case.payload))
     out, sim, problems = rs.run_real(c)
+    if problems:        # a result whose dtype is not the variable's (what a later reader gets must not depend on the cache)
+        out += "#DTYPE:" + problems[0]
     return out
 
 
@@ -29,6 +31,7 @@ _values_too_large = rs.values_too_large
 
 
 def canon_equal(case: Case, impl_out: str, model_out: str) -> bool:
+    impl_out = impl_out.split("#DTYPE:")[0]
     if _values_too_large(impl_out) or _values_too_large(_strip(model_out)):
         return True          # off the exact lattice (numeric policy): not compared
     return impl_out == _strip(model_out)
@@ -60,6 +63,8 @@ def oracle(case: Case, out: str):
     c: rs.SysCase = pickle.loads(bytes.fromhex(case.payload))
     if _values_too_large(out):
         return None
+    if "#DTYPE:" in out:
+        return ("result-type", out.split("#DTYPE:")[1])
     res, known = out.split("|", 1)
     got = res.split(";")
     for i, g in enumerate(got):
